@@ -69,6 +69,7 @@ func (w *World) Serve(q *Req) {
 		w.F.ServeHTTP(q.W.WriterFacets(q.Flusher, false, q.Hijacker != 0), req)
 	}()
 	cancel()
+	q.EndStamp = sched.Stamp()
 	q.Served = true
 }
 
